@@ -233,7 +233,8 @@ func (s *State) evalInternal(node any) object.Object { //nolint:funlen,gocognit,
 			return s.evalAssignment(s.Eval(node.Right), node)
 		}
 		// Humans expect left to right evaluations.
-		left := s.Eval(node.Left)
+		// (the value the left operand has now: not a register or reference read after the right side ran.)
+		left := object.Value(s.Eval(node.Left))
 		if left.Type() == object.ERROR {
 			return left
 		}
@@ -300,7 +301,7 @@ func (s *State) evalInternal(node any) object.Object { //nolint:funlen,gocognit,
 		if f.Type() == object.ERROR {
 			return f
 		}
-		args, oerr := s.evalExpressions(node.Arguments)
+		args, oerr := s.evalExpressions(node.Arguments, false)
 		if oerr != nil {
 			return *oerr
 		}
@@ -310,12 +311,10 @@ func (s *State) evalInternal(node any) object.Object { //nolint:funlen,gocognit,
 		name := node.Function.Value().Literal()
 		return s.applyFunction(name, f, args)
 	case *ast.ArrayLiteral:
-		elements, oerr := s.evalExpressions(node.Elements)
+		// elements are values, not references to the variable they were read from.
+		elements, oerr := s.evalExpressions(node.Elements, true)
 		if oerr != nil {
 			return *oerr
-		}
-		for i, e := range elements {
-			elements[i] = object.Value(e) // elements are values, not references to the variable they were read from.
 		}
 		return object.NewArray(elements)
 	case *ast.MapLiteral:
@@ -859,7 +858,9 @@ func (s *State) extendFunctionEnv(
 	return env, newBody, nil
 }
 
-func (s *State) evalExpressions(exps []ast.Node) ([]object.Object, *object.Error) {
+// evalExpressions evaluates the list left to right; with values set the elements are dereferenced as they are
+// evaluated (array literals), otherwise references are kept for the callee (type() shows them).
+func (s *State) evalExpressions(exps []ast.Node, values bool) ([]object.Object, *object.Error) {
 	result := object.MakeObjectSlice(len(exps)) // not that this one can ever be huge but, for consistency.
 	for _, e := range exps {
 		evaluated := s.evalInternal(e)
@@ -870,6 +871,9 @@ func (s *State) evalExpressions(exps []ast.Node) ([]object.Object, *object.Error
 		case object.RETURN: // break/continue/return are statements, not values: they must not end up in arrays or arguments.
 			oerr := s.Errorf("unexpected control type %v in an expression list", evaluated.(object.ReturnValue).ControlType)
 			return nil, &oerr
+		}
+		if values { // the value it has now: a later element may assign the variable this one was read from.
+			evaluated = object.Value(evaluated)
 		}
 		result = append(result, object.CopyRegister(evaluated))
 	}
